@@ -39,7 +39,7 @@ for id in $IDS; do
   cp /verif/evidence/$id.json /tmp/seed_evidence_$id.json 2>/dev/null
   out=$(cd /verif && timeout 1500 ./run check "$id" quick 2>&1); rc=$?
   nviol=$(echo "$out" | grep -c '^VIOLATION')
-  first=$(echo "$out" | grep -m1 -A1 '^VIOLATION' | tail -1 | cut -c1-300 | sed 's/"/\\"/g')
+  first=$(echo "$out" | grep -m1 -A1 '^VIOLATION' | tail -1 | cut -c1-300 | tr -d '"\\' )
   res "$E" "check_$id" "{\"exit\": $rc, \"violation_lines\": $nviol, \"first\": \"$first\"}"
   echo "  $id rc=$rc violations=$nviol"
   cp /tmp/seed_evidence_$id.json /verif/evidence/$id.json 2>/dev/null
